@@ -117,7 +117,8 @@ with compile_p (env : list val) (p : pexp) : prog :=
       let al := (fix go (acts : list pexp) : list (val -> prog) :=
                    match acts with [] => [] | a :: r => (fun s => compile_p (env ++ [s]) a) :: go r end) acts in
       PRepeat id K (eval_v env s0)
-              (match check with Some c => Some (fun s => compile_p (env ++ [s]) c) | None => None end)
+              (match check with Some _ => true | None => false end)
+              (fun s => match check with Some c => compile_p (env ++ [s]) c | None => PRet VU end)
               (length al) (fun i s => nth i al (fun _ => PRet VU) s)
               (fun s => compile_p (env ++ [s]) k)
   end.
